@@ -420,20 +420,20 @@ func (d *Document) AddImageFromFile(filePath string, config *ImageConfig) (*Imag
 // generateSafeImageFileName 生成安全的图片文件名
 // 将非ASCII字符的文件名转换为安全的ASCII文件名，以确保Microsoft Word兼容性
 func generateSafeImageFileName(imageID int, originalFileName string, format ImageFormat) string {
-	// 获取文件扩展名
-	ext := filepath.Ext(originalFileName)
-	if ext == "" {
-		// 如果没有扩展名，根据格式添加
-		switch format {
-		case ImageFormatPNG:
-			ext = ".png"
-		case ImageFormatJPEG:
-			ext = ".jpeg"
-		case ImageFormatGIF:
-			ext = ".gif"
-		default:
-			ext = ".png"
-		}
+	// 扩展名由图片的实际格式决定，而不是沿用原始文件名的扩展名：
+	// [Content_Types].xml 中只按格式注册 png/jpeg/gif 三种扩展名（见 addImageContentType），
+	// 沿用原始扩展名（如 "a.jpg"、"照片.照片"、扩展名与内容不符的 "x.png"）会生成
+	// 没有对应内容类型的媒体部件，Word 会报告文档损坏。
+	var ext string
+	switch format {
+	case ImageFormatPNG:
+		ext = ".png"
+	case ImageFormatJPEG:
+		ext = ".jpeg"
+	case ImageFormatGIF:
+		ext = ".gif"
+	default:
+		ext = ".png"
 	}
 
 	// 使用图片ID生成安全的文件名
@@ -899,13 +899,19 @@ func (d *Document) calculateDisplaySize(imageInfo *ImageInfo) (int64, int64) {
 		} else if config.Size.Width > 0 && config.Size.KeepAspectRatio {
 			// 只指定宽度，保持长宽比
 			displayWidth = int64(config.Size.Width * 36000)
-			ratio := float64(originalHeight) / float64(originalWidth)
-			displayHeight = int64(float64(displayWidth) * ratio)
+			// 像素宽度为0时长宽比无定义（除以零得到Inf/NaN，转换为int64后是一个巨大的负数），
+			// 此时高度保持像素尺寸
+			if originalWidth > 0 {
+				ratio := float64(originalHeight) / float64(originalWidth)
+				displayHeight = int64(float64(displayWidth) * ratio)
+			}
 		} else if config.Size.Height > 0 && config.Size.KeepAspectRatio {
 			// 只指定高度，保持长宽比
 			displayHeight = int64(config.Size.Height * 36000)
-			ratio := float64(originalWidth) / float64(originalHeight)
-			displayWidth = int64(float64(displayHeight) * ratio)
+			if originalHeight > 0 {
+				ratio := float64(originalWidth) / float64(originalHeight)
+				displayWidth = int64(float64(displayHeight) * ratio)
+			}
 		}
 	}
 
